@@ -14,26 +14,10 @@ Core-only.
 -/
 import CweModel.Base.IRSem
 import CweModel.C10.Propagation
+import CweModel.C10.SemLemmas
 
 namespace CweModel.C10
 open CweModel CweModel.IR CweModel.Sem
-
-def isBoolVal : Option Bv → Bool
-  | some b => decide (b.toNat ≤ 1)
-  | none => true
-
-def isBoolOp : BinOpType → Bool
-  | .BoolAnd | .BoolOr | .BoolXOr => true
-  | _ => false
-
-/-- H1 on one expression in state `σ` -/
-def boolOk (σ : State) : Expression → Bool
-  | .BinOp op l r =>
-    boolOk σ l && boolOk σ r && (!isBoolOp op || (isBoolVal (eval σ l) && isBoolVal (eval σ r)))
-  | .UnOp _ a => boolOk σ a
-  | .Cast _ _ a => boolOk σ a
-  | .Subpiece _ _ a => boolOk σ a
-  | _ => true
 
 /-- H2 on one expression given the set of assigned temporaries -/
 def tempsOk (defd : List Variable) (e : Expression) : Bool :=
